@@ -132,6 +132,10 @@ func (t *Trie) Unsubscribe(ssid Ssid, subscriber Subscriber) {
 // Lookup returns the Subscribers for the given topic.
 func (t *Trie) Lookup(ssid Ssid, filter func(s Subscriber) bool) (subs Subscribers) {
 	subs = newSubscribers()
+	if len(ssid) == 0 {
+		return // Nothing can match an empty ssid
+	}
+
 	t.RLock()
 
 	t.lookup(ssid, &subs, t.root, filter)
